@@ -18,6 +18,7 @@ class VThread:
     self.pending = ("begin", "", ())
     self.enabled = None
     self.wake = None
+    self.deadline = None
     self.exc = None
     self.real = None
     self.steps = 0
@@ -88,7 +89,7 @@ class Sched:
   def me(self):
     return self.by_ident.get(threading.get_ident())
 
-  def point(self, op, obj="", args=(), enabled=None, wake=None):
+  def point(self, op, obj="", args=(), enabled=None, wake=None, deadline=None):
     """announce the next shared-memory operation and wait to be scheduled; returns the VThread or None"""
     vt = self.me()
     if vt is None:
@@ -96,13 +97,14 @@ class Sched:
     if self.killing:
       raise SchedExit()
     vt.pending, vt.enabled, vt.wake = (op, obj, args), enabled, wake
+    vt.deadline = deadline       # a blocked operation with a timeout becomes enabled at this (virtual) time
     vt.state = "parked"
     self.baton.release()
     vt.sem.acquire()
     if self.killing:
       raise SchedExit()
     vt.state = "running"
-    vt.enabled, vt.wake = None, None
+    vt.enabled, vt.wake, vt.deadline = None, None, None
     return vt
 
   def result(self, res):
@@ -158,6 +160,7 @@ class Sched:
       runnable = [vt for vt in self.threads if vt.state == "parked" and vt.is_enabled()]
       if not runnable:
         sleepers = [vt.wake for vt in self.threads if vt.state == "parked" and vt.wake is not None and vt.wake > self.now]
+        sleepers += [vt.deadline for vt in self.threads if vt.state == "parked" and getattr(vt, "deadline", None) is not None and vt.deadline > self.now]
         if sleepers and (self.policy.time_limit is None or min(sleepers) <= self.policy.time_limit):
           self.now = min(sleepers)
           continue
@@ -189,10 +192,20 @@ class Sched:
       self.last = vt
       self.last_rec = len(self.log) - 1
       vt.sem.release()
-      self.baton.acquire()
+      self._await_baton(vt)
       for ob in self.observers:
         ob(self)
     return self.outcome
+
+  STUCK_AFTER = 120.0     # seconds of wall-clock time without the running thread reaching its next operation
+
+  def _await_baton(self, vt):
+    """wait until the thread that was given the processor reaches its next operation (or ends).  A thread that blocks for real -
+    on a primitive the harness does not virtualise - would leave the check hanging: that is a failure of the machinery, reported as such."""
+    if not self.baton.acquire(timeout=self.STUCK_AFTER):
+      from . import common
+      raise common.MachineryError("thread %s did not come back to the scheduler within %.0f s after %s on %s: it is blocked on a primitive that "
+                                  "is not virtualised (or loops without touching one)" % (vt.name, self.STUCK_AFTER, vt.pending[0], vt.pending[1]))
 
   def step_thread(self, name):
     """driver-controlled single step of one thread (spec -> code replays); returns the log record or None"""
@@ -211,7 +224,7 @@ class Sched:
     self.last = vt
     self.last_rec = len(self.log) - 1
     vt.sem.release()
-    self.baton.acquire()
+    self._await_baton(vt)
     for ob in self.observers:
       ob(self)
     return rec
